@@ -246,3 +246,9 @@ PROPS["C02"]["drivers"] = PROPS["C02"]["drivers"] + [{"name": "engine", "n_quick
 PROPS["C02"]["model_files"] = list(dict.fromkeys(PROPS["C02"]["model_files"] + ENGINE_MODEL))
 PROPS["C02"]["rule"] = PROPS["C02"]["rule"] + " || engine level: " + ENGINE_RULE
 PROPS["C02"]["assumptions"] = PROPS["C02"].get("assumptions", []) + ENGINE_ASSUME
+
+PROPS["C01"]["prop_files"] = ["props/C01page.v", "props/C01.v"]
+PROPS["C01"]["files"] = list(dict.fromkeys(PROPS["C01"]["files"] + ["proofs/CodecProofs.v", "proofs/CacheProofs.v", "proofs/NavProofs.v", "proofs/VmProofs.v", "proofs/SizeProofs.v", "props/C01.v"]))
+
+PROPS["C08"]["prop_files"] = ["props/C08.v", "props/C08safe.v"]
+PROPS["C08"]["files"] = list(dict.fromkeys(PROPS["C08"]["files"] + ["proofs/SafetyProofs.v", "props/C08safe.v"]))
